@@ -395,9 +395,9 @@ def slerp(p: np.ndarray, q: np.ndarray, t_array: np.ndarray, threshold: float = 
     _assert_iterables(p, 'p')
     _assert_iterables(q, 'q')
     _assert_iterables(t_array, 't_array')
-    p = np.copy(p)
-    q = np.copy(q)
-    t_array = np.copy(t_array)
+    p = np.array(p, dtype=float)
+    q = np.array(q, dtype=float)
+    t_array = np.array(t_array, dtype=float)
     qdot = np.dot(p, q)
     # Ensure SLERP takes the shortest path
     if qdot < 0.0:
